@@ -31,4 +31,5 @@ def run(ctx):
     lib_schema.row_forwarding(ctx, P, funcs=ced)
     lib_module.bytes_length(ctx, P, only=ms)
     lib_module.parsed_used(ctx, P, only=ms)
+    lib_module.format_types(ctx, P, only=ms)
     lib_mem.c_lints(ctx, ctx.program(), scopes.lib_scope("C11"))
